@@ -223,6 +223,14 @@ pub fn generate(seed: u64, cases: usize, out: &mut dyn FnMut(String)) {
         // more invalid blocks than there are frame buffers (2W): every buffer must come back
         out(run_case("corpus-many-bad-blocks", &c, &p, &Plan { w: 1, bad_blocks: vec![0, 1, 2, 3, 4], ..base.clone() }, seed));
         out(run_case("corpus-f8c-env-zero", &c, &p, &Plan { w: 0, env: Some("0".into()), ..base.clone() }, seed));
+        // block sizes at both ends of the supported range (32..=32767), incl. sizes that are not a multiple of a
+        // SIMD vector: the two modes must accept exactly the same sizes
+        for bs in [32767usize, 32766, 32753, 32752, 33, 32] {
+            let mut cb = Cfg::default();
+            cb.block_size = bs;
+            let pb = gen::pcm(&mut rng, "sine_small", 1, 8, 8000, if bs > 1000 { bs + 40 } else { 3 * bs + 5 });
+            out(run_case(&format!("corpus-bs-edge-{bs}"), &cb, &pb, &Plan { w: 2, ..base.clone() }, seed));
+        }
     }
     while i < cases {
         let mut cfg = gen::random_valid_cfg(&mut rng);
